@@ -1359,8 +1359,9 @@ fn mtn_reload(buf: &[u8], k: usize) -> Res<Vec<ExtraAccountMeta>> {
     })
 }
 /// more than 128 / 160 / 200 instructions' lists in one account of exactly the advertised total size
-fn many_instructions_scenario(rep: &mut Report, rng: &mut Rng) {
-    let count = *rng.pick(&[129usize, 136, 160, 200]);
+fn many_instructions_scenario(rep: &mut Report, rng: &mut Rng, to_coq: bool) {
+    let count = if to_coq { *rng.pick(&[129usize, 136]) } else { *rng.pick(&[129usize, 136, 160, 200]) };
+    let mut items: Vec<String> = Vec::new();
     let lists: Vec<Vec<ExtraAccountMeta>> = (0..count).map(|_| (0..rng.below(3)).map(|_| rand_extra(rng)).collect()).collect();
     let total: usize = lists.iter().map(|l| ExtraAccountMetaList::size_of(l.len()).unwrap()).sum();
     let mut buf = vec![0u8; total];
@@ -1383,6 +1384,9 @@ fn many_instructions_scenario(rep: &mut Report, rng: &mut Rng) {
     };
     for (pos, &k) in order.iter().enumerate() {
         let r = mtn_init(&mut buf, k, &lists[k]);
+        if to_coq {
+            items.push(format!("MInit {} {} {} {}", 1000 + k, e_extras(&lists[k]), r.emit(|_| "tt".into()), cksum(&buf)));
+        }
         if r != Res::Ok(()) {
             rep.violate("init-result", "init must succeed while the account has room for the list (many instructions in one account)",
                 serde_json::json!({"instructions": count, "position": pos, "observed": format!("{:?}", r)}).to_string());
@@ -1394,6 +1398,14 @@ fn many_instructions_scenario(rep: &mut Report, rng: &mut Rng) {
         }
     }
     check(rep, &buf, &lists, &|_| true, "all-initialised");
+    if to_coq {
+        // the model runs the same inits on the same zeroed account and reads every list back
+        for k in (0..count).filter(|k| k % 9 == 0 || *k >= count - 2) {
+            items.push(format!("MReload {} {}", 1000 + k, mtn_reload(&buf, k).emit(|v| e_extras(v))));
+        }
+        items.push(format!("MInit 0 [] {} {}", { let mut b2 = buf.clone(); catch(|| ExtraAccountMetaList::init::<MT0>(&mut b2, &[])).emit(|_| "tt".into()) }, cksum(&buf)));
+        rep.case(format!("CMl {} [\n  {}\n ] {}", emit::blob(&vec![0u8; total]), items.join(";\n  "), emit::blob(&buf)), true);
+    }
     // the account is exactly full: one more instruction's list does not fit and changes nothing
     let before = buf.clone();
     let r = catch(|| ExtraAccountMetaList::init::<MT0>(&mut buf, &[]));
@@ -1476,8 +1488,8 @@ pub fn run_c12(ctx: &Ctx) -> Report {
             rep.violate("one-byte-less", "one byte less than the advertised size must fail (and leave the buffer untouched)", serde_json::json!({"n": n, "observed": format!("{:?}", r2)}).to_string());
         }
     }
-    for _ in 0..ctx.scale(6, 40) {
-        many_instructions_scenario(&mut rep, &mut rng);
+    for i in 0..ctx.scale(6, 40) {
+        many_instructions_scenario(&mut rep, &mut rng, i < ctx.scale(1, 6));
     }
     for _ in 0..ctx.scale(40, 400) {
         odd_slice_list_scenario(&mut rep, &mut rng);
